@@ -65,10 +65,26 @@ def gen_script(rng, sid, watcher):
                 pre_dirs=pre_dirs, pre_files=pre_files, ops=ops)
 
 
+def gen_source_script(rng, sid):
+    """the other sources: signals sent to the program (INT / TERM are urgent and by-pass the filter, USR2 is
+    rejected by the naming rule, HUP makes the filter fail) and keyboard end-of-file, among file operations"""
+    ops = [dict(op="create", path="root/pass_1.txt", gap_ms=20)]
+    sigs = ["USR1", "USR2", "HUP", "INT", "TERM", "QUIT"]
+    rng.shuffle(sigs)
+    for i, sg in enumerate(sigs[: rng.randrange(2, 6)]):
+        ops.append(dict(op="signal", path="signal/" + sg, gap_ms=rng.choice([60, 90, 150])))   # far enough apart not to coalesce
+        if rng.random() < 0.4:
+            ops.append(dict(op="write", path="root/pass_1.txt", gap_ms=rng.choice([0, 20])))
+    if rng.random() < 0.7:
+        ops.insert(rng.randrange(1, len(ops) + 1), dict(op="keyboard", path="keyboard/eof", gap_ms=50))
+    return dict(id=sid, origin="sources", watcher="native", throttle=rng.choice([0, 30]), pre_dirs=[], pre_files=[], ops=ops)
+
+
 def scripts_for(tier, rng):
-    n_native, n_poll = (18, 6) if tier == "quick" else (160, 40)
+    n_native, n_poll, n_src = (18, 6, 8) if tier == "quick" else (160, 40, 60)
     return [gen_script(rng, "n%04d" % i, "native") for i in range(n_native)] + \
-           [gen_script(rng, "q%04d" % i, "poll") for i in range(n_poll)]
+           [gen_script(rng, "q%04d" % i, "poll") for i in range(n_poll)] + \
+           [gen_source_script(rng, "s%04d" % i) for i in range(n_src)]
 
 
 def drive(scripts, name, procs=4):
@@ -83,7 +99,7 @@ def drive(scripts, name, procs=4):
         with open(sp, "w") as f:
             for s in part:
                 f.write(json.dumps(s) + "\n")
-        p = subprocess.run([os.path.join(vlib.BIN, "fsreal_driver"), sp, wp + str(i), fp + str(i)],
+        p = subprocess.run([os.path.join(vlib.BIN, "fsreal_driver"), sp, wp + str(i), fp + str(i)], stdin=subprocess.DEVNULL,
                            stdout=subprocess.PIPE, stderr=subprocess.STDOUT, text=True, timeout=3600)
         if p.returncode != 0:
             sys.stderr.write(p.stdout[-3000:])
